@@ -150,6 +150,18 @@ theorem revoke_good {A : Nat → Prop} {c : Chan} (h : HI A c) (n : Nat) : Good 
               have hk1 : k + 1 = c.next := by omega
               rw [hk1]; exact Or.inl hacc
 
+theorem revokeP_cases (c : Chan) (n : Nat) (po : Bool) :
+    revokeP c n po = revoke c n ∨ revokeP c n po = fail c .errPolicy := by
+  unfold revokeP
+  split
+  · right; rfl
+  · left; rfl
+
+theorem revokeP_good {A : Nat → Prop} {c : Chan} (h : HI A c) (n : Nat) (po : Bool) : Good A (revokeP c n po) := by
+  rcases revokeP_cases c n po with e | e <;> rw [e]
+  · exact revoke_good h n
+  · exact good_fail h _
+
 theorem activate_good {A : Nat → Prop} {c : Chan} (h : HI A c) : Good A (activate c) := by
   unfold activate
   split
@@ -265,6 +277,11 @@ theorem revoke_validated (c : Chan) (n : Nat) : (revoke c n).out.validated = non
   repeat' split
   all_goals simp [release_validated]
 
+theorem revokeP_validated (c : Chan) (n : Nat) (po : Bool) : (revokeP c n po).out.validated = none := by
+  rcases revokeP_cases c n po with e | e <;> rw [e]
+  · exact revoke_validated c n
+  · rfl
+
 theorem activate_validated (c : Chan) : (activate c).out.validated = none := by
   unfold activate fail; repeat' split
   all_goals rfl
@@ -298,7 +315,7 @@ theorem chanStep_good {A : Nat → Prop} (F : Nat → Bytes → Bytes) {c : Chan
   | getSecret n => exact getSecret_good h n
   | getSecretOrNone n => exact getSecretOrNone_good h n
   | validate n info sv pk => exact needReady_good h _ (validate_good h n info sv pk)
-  | revoke n => exact needReady_good h _ (revoke_good h n)
+  | revoke n po => exact needReady_good h _ (revokeP_good h n po)
   | activate => exact needReady_good h _ (activate_good h)
   | signHolder n => exact needReady_good h _ (signHolder_good h n)
   | signRecovery => exact needReady_good h _ (signRecovery_good h)
@@ -323,21 +340,21 @@ theorem chanStep_good {A : Nat → Prop} (F : Nat → Bytes → Bytes) {c : Chan
       · split
         · split <;> rfl
         · exact activate_validated _
-  | hRevoke ver n =>
+  | hRevoke ver n po =>
     simp only [chanStep]
     split
     · exact good_fail h _
     · refine needReady_good h _ ?_
       split
       · exact good_fail h _
-      · have hg := revoke_good h (n + 1)
+      · have hg := revokeP_good h (n + 1) po
         split
         · refine ⟨?_, by intro k hk; simp at hk⟩
           refine hg.1.mono ?_
           intro m hm
           rcases hm with hm | hm
           · exact Or.inl hm
-          · rw [revoke_validated] at hm; simp at hm
+          · rw [revokeP_validated] at hm; simp at hm
         · exact hg
   | hGetPoint ver n =>
     simp only [chanStep]
